@@ -64,8 +64,12 @@ func (w *World) VerifyFunction(fn *ssa.Function, opts VerifyOpts) (res *FuncResu
 		unsupp("function %s has no body", fr.Name)
 	}
 	st := NewState()
-	for _, p := range fn.Params {
-		v := ex.symbolic("p$"+p.Name(), p.Type())
+	for pi, p := range fn.Params {
+		pname := p.Name()
+		if pname == "_" || pname == "" {
+			pname = fmt.Sprintf("_%d", pi)
+		}
+		v := ex.symbolic("p$"+pname, p.Type())
 		st.regs[p] = v
 		ex.assumeParamFacts(st, v.T, p.Type())
 	}
